@@ -128,6 +128,25 @@ def rule_pairs(chk):
                     if t.cls is g.cls and t not in reach:
                         reach.add(t)
                         todo.append(t)
+        if not (reach & setters) and q == "Action.context":
+            # the context manager is an object of another class: a fresh one per call is equivalent to the generator form (not modelled);
+            # one object kept on the action and handed out again shares its per-entry state between overlapping entries
+            kept = [x for x in iter_own_nodes(g.node) if isinstance(x, ast.Assign) and any(common.is_self_attr(t) for t in x.targets) and isinstance(x.value, ast.Call)]
+            rets = [x for x in iter_own_nodes(g.node) if isinstance(x, ast.Return) and x.value is not None]
+            if not kept:
+                # `return self._context`, the object being made once (in __init__ or lazily elsewhere)
+                for r_ in rets:
+                    if common.is_self_attr(r_.value):
+                        for m_ in set(g.cls.methods.values()):
+                            kept += [x for x in iter_own_nodes(m_.node) if isinstance(x, ast.Assign) and any(common.is_self_attr(t, r_.value.attr) for t in x.targets) and isinstance(x.value, ast.Call)]
+            if kept and rets:
+                attr = [t.attr for x in kept for t in x.targets if common.is_self_attr(t)][0]
+                chk.bad("C04.entered", "Action.context:per-entry-state-is-per-entry", chk.where(g, kept[0].lineno),
+                        "context() hands out one %s object kept in self.%s for the action's whole life: the token needed to restore the previous action is per-entry state, and overlapping entries of "
+                        "the same action's context (nested `with a.context():` blocks, two asyncio tasks or callbacks inside the same long-lived action) overwrite each other's token, so leaving "
+                        "restores the wrong action or raises" % (unparse(kept[0].value.func), attr))
+                continue
+            raise AnalysisError("Action.context is not a generator-based context manager that sets the context variable itself (returned context manager object not modelled)")
         chk.req(bool(reach & setters), "C04.entered", "%s:installs-the-action" % q, chk.where(g),
                 good="sets the context variable (in %s)" % ", ".join(sorted(x.name for x in reach & setters)),
                 fail="%s does not make the action current" % q)
@@ -143,7 +162,11 @@ def rule_pairs(chk):
         if common.is_self_attr(e):
             return ("attr", e.attr, None)
         return (None, None, None)
+    from ..inline import known_functions
     for f, c, arg in sets:
+        known = known_functions().get(f.module.short)
+        if f.cls is not None and known is not None and not any(k.startswith(f.cls.name + ".") for k in known):
+            raise AnalysisError("the context variable is set in %s, a method of a class the rules do not know (its pairing with a reset is not modelled)" % f.fq)
         cfg = ctx.cfg(f)
         node, mult = common.node_of_call(cfg, c)
         label = "%s:set" % f.fq
